@@ -146,6 +146,11 @@ func generate(g *Gen, prop string, n int, w *bufio.Writer) {
 		for i := 0; i < n; i++ {
 			g.genFloat(np())
 		}
+	case "floatmin":
+		g.minExpFloat = true
+		for i := 0; i < n; i++ {
+			g.genFloat(np())
+		}
 	case "C17":
 		for i := 0; i < n; i++ {
 			g.genGob(np())
